@@ -33,8 +33,12 @@ CurveByName(nm) == CHOOSE c \in {AllCurves[i] : i \in 1..Len(AllCurves)} : c.nam
 T(c)     == << c.tx, c.ty >>
 Order(c) == c.h * c.n                            \* #E(GF(p)), Inf included
 
-\* every point of the group, as a sequence in the order 0*T, 1*T, ..., (h*n-1)*T
+\* every point of the group, as a sequence in the order 0*T, 1*T, ..., (h*n-1)*T   (8-bit curves)
 GroupSeq(c) == MulTable(c, T(c), Order(c) - 1)
+\* s*T for a small-curve "point number" s (any natural; generators name points this way)
+PointNo(c, s) == Mul(c, s % Order(c), T(c))
+\* the point number of the base point G (8-bit curves)
+GNo(c) == CHOOSE s \in 1..(Order(c) - 1) : Mul(c, s, T(c)) = G(c)
 
 \* all solutions of the curve equation, by exhaustion (8-bit fields only: p^2 candidates); counted in
 \* EcCurvesCount.tla (kept out of this module because every module that EXTENDS it re-checks its ASSUMEs)
